@@ -480,6 +480,27 @@ func runC03(r *Run) {
 		r.check(cm >= 1, "findParamLen:counts-occurrences", r.fpos(m), "the matcher counts occurrences of ComparePart in the rest of the path", "the matcher no longer counts occurrences of ComparePart")
 	})
 
+	r.rule("R8", "the catch-all short cut is taken for the catch-all pattern only: Route.match accepts a route flagged star before any parsing, with the whole path as `*` — so register and addPrefixToRoute raise Route.star only on the normalised pattern being the text \"/*\"; a flag derived from the parsed segments (`second segment is greedy`) is also true for `/+`, which must not match `/` — dispatch and RoutePatternMatch would then disagree (E8: the flag is a comparison with that literal)", func() {
+		n := 0
+		for _, fn := range []string{"(*App).register", "(*App).addPrefixToRoute"} {
+			f := r.Fn("", fn)
+			for _, fr := range fieldRefs(f) {
+				if !fr.Write || fr.Name != "Route.star" {
+					continue
+				}
+				n++
+				if b, isB := constBool(asConst(fr.Val)); isB && !b {
+					r.ok(fn+":star:literal-/*", r.pos(fr.Instr), "the flag is cleared")
+					continue
+				}
+				lit, _, ok := flagFromCompare(fr.Instr.Parent(), fr.Val)
+				r.check(ok && lit == "/*", fn+":star:literal-/*", r.pos(fr.Instr), "Route.star is the comparison of the pattern with \"/*\"",
+					"Route.star is not decided by comparing the pattern with the text \"/*\": a pattern such as `/+` (greedy, but needing at least one byte) can be flagged as catch-all — `/` is then served by the `/+` route with Params(\"+\") == \"\", while RoutePatternMatch(\"/\", \"/+\") says false")
+			}
+		}
+		r.atLeast("stores to Route.star", n, 2)
+	})
+
 	r.rule("R7", "greedy parameters are numbered per kind, as Params reads them (`*` is `*1`, the second `+` is `+2`): in analyseParameterPart every number appended to a parameter name comes from exactly one of the parser's counters, and is appended only behind the test for that kind's marker (E5, writer and reader agree)", func() {
 		f := r.Fn("", "(*routeParser).analyseParameterPart")
 		kinds := []struct {
